@@ -3,7 +3,7 @@ import ast
 import z3
 from . import ty
 from .ty import Int, Bool, NoneT, Str, Opt, Seq, Tup, List, Deque, Dict, Set, Obj, Opaque, Fun
-from .core import (Untranslatable, ContractError, Val, PyConst, PyTuple, BoundMethod, FuncRef, Closure, ProviderCall,
+from .core import (Unknown, Untranslatable, ContractError, Val, PyConst, PyTuple, BoundMethod, FuncRef, Closure, ProviderCall,
                    View, State, Outcome, fresh, none_val, int_val, bool_val, type_heap_keys)
 
 _parse_cache = {}
@@ -230,6 +230,8 @@ def eval_args(self, e, st):
                 v = self.iter_value(v, s2)
                 if isinstance(v, PyTuple):
                     yield from rec(i + 1, acc + v.items, s2)
+                elif self.lenient:
+                    yield from rec(i + 1, acc + [Unknown("star-args")], s2)
                 else:
                     raise Untranslatable("star-args of symbolic length")
             return
@@ -272,7 +274,8 @@ def apply(self, callee, args, kwargs, st, node):
         yield from self.call_method(callee.recv, callee.name, args, kwargs, st, node)
         return
     if isinstance(callee, FuncRef):
-        c = self.reg.contracts.get(callee.qual)
+        c = self.reg.contracts.get(callee.qual) or self.reg.contracts.get(callee.qual.split(".")[-1]) \
+            if "." in callee.qual and callee.qual.split(".")[0] not in self.reg.classes else self.reg.contracts.get(callee.qual)
         if c is not None:
             if c.yields:
                 yield self.call_generator_view(c, args, kwargs, st, node), st
@@ -281,6 +284,9 @@ def apply(self, callee, args, kwargs, st, node):
             return
         if callee.qual in self.reg.classes or callee.qual + ".__init__" in self.reg.contracts:
             yield from self.construct(callee.qual, args, kwargs, st, node)
+            return
+        if self.lenient:
+            yield self.unknown_call(args, kwargs, st, f"uncontracted function {callee.qual}"), st
             return
         raise Untranslatable(f"call of uncontracted function {callee.qual}")
     if isinstance(callee, Closure):
@@ -292,7 +298,22 @@ def apply(self, callee, args, kwargs, st, node):
     if isinstance(callee, Val) and isinstance(callee.t, Fun):
         yield from self.call_provider(ProviderCall(callee.t.nm, callee.z), args, kwargs, st, node)
         return
+    if isinstance(callee, Unknown) or (self.lenient and isinstance(callee, PyConst)):
+        yield self.unknown_call(args, kwargs, st, f"call of {callee!r}"), st
+        return
     raise Untranslatable(f"call of {callee!r}")
+
+
+def unknown_call(self, args, kwargs, st, why):
+    """A call the encoding does not track: the contents of every mutable argument are havocked, result unknown."""
+    if not self.lenient:
+        raise Untranslatable(why + " (contract is not lenient)")
+    for a in list(args) + list(kwargs.values()):
+        if isinstance(a, Val) and a.t.mutable:
+            self.havoc_loc(("contents", a), st)
+    self.assume_log("lenient: untracked calls (library helpers such as itertools.product, functools.partial, sympy, "
+                    "stored parameter maps) do not call term providers and only mutate their arguments")
+    return Unknown(why)
 
 
 def call_closure(self, clo, args, kwargs, st):
@@ -515,6 +536,9 @@ def call_builtin(self, name, args, kwargs, st, node):
     if name in ("dict", "Counter", "defaultdict"):
         want = getattr(self, "expect_type", None)
         if not isinstance(want, Dict):
+            if self.lenient:
+                yield self.unknown_call(args, kwargs, st, f"{name}()"), st
+                return
             raise Untranslatable(f"{name}() of unknown type (add a locals hint)")
         if a and name != "defaultdict":
             raise Untranslatable(f"{name}(iterable)")
@@ -575,6 +599,9 @@ def call_builtin(self, name, args, kwargs, st, node):
         return
     if name == "itertools.chain.from_iterable":
         raise Untranslatable("chain.from_iterable")
+    if self.lenient:
+        yield self.unknown_call(args, kwargs, st, f"builtin {name}"), st
+        return
     raise Untranslatable(f"builtin {name}")
 
 
@@ -675,8 +702,21 @@ def call_method(self, recv, name, args, kwargs, st, node):
                 if mm is not None and self.reg.find_method(t.cls, "__getitem__") is not None:
                     yield from mm(self, recv, args, kwargs, st, node)
                     return
+                if self.lenient and name in self.c.pure_calls:
+                    self.assume_log(f"lenient: self.{name}(...) is pure and calls no term provider")
+                    yield Unknown(f"pure call {name}"), st
+                    return
                 raise Untranslatable(f"method {t.cls}.{name} has no contract")
-            yield from self.call_contract(c, [recv] + list(args), kwargs, st, node)
+            fnode, _, _ = self.src.find(c)
+            static = any(isinstance(d, ast.Name) and d.id == "staticmethod" for d in fnode.decorator_list)
+            yield from self.call_contract(c, ([] if static else [recv]) + list(args), kwargs, st, node)
+            return
+        if isinstance(t, Opaque) and (t.nm, name) in self.reg.opaque_methods:
+            ats, rt = self.reg.opaque_methods[(t.nm, name)]
+            az = [self.coerce(self.guess_tuple(x, st), at, st).z for x, at in zip(a, ats)]
+            f = z3.Function(f"meth_{t.nm}_{name}", t.sort(), *[at.sort() for at in ats], rt.sort())
+            self.assume_log(f"A2: {t.nm}.{name}() is pure and deterministic (uninterpreted function)")
+            yield Val(rt, f(recv.z, *az)), st
             return
         if isinstance(t, Opt):
             inner = self.coerce(recv, t.elt, st)
@@ -842,6 +882,11 @@ def call_method(self, recv, name, args, kwargs, st, node):
     if isinstance(recv, PyConst) and isinstance(recv.v, tuple) and recv.v[0] == "module":
         yield from self.call_builtin(f"{recv.v[1]}.{name}", args, kwargs, st, node)
         return
+    if isinstance(recv, Unknown) or (self.lenient and not (isinstance(recv, Val) and isinstance(recv.t, Obj))):
+        if isinstance(recv, Val) and recv.t.mutable:
+            self.havoc_loc(("contents", recv), st)
+        yield self.unknown_call(args, kwargs, st, f"method {name}"), st
+        return
     raise Untranslatable(f"method {name} on {recv!r}")
 
 
@@ -945,6 +990,29 @@ def call_contract(self, c, args, kwargs, st, node):
         m_old = self.as_int(self.spec_eval(c.decreases, self.entry), st).z
         self.oblige(f"{site}.decreases", st, z3.And(m_new >= 0, m_new < m_old), "termination measure")
     pre = State(env, dict(st.heap), st.pc, st.next_ref, st.ghost, st.labels)
+    # provider discipline: every event the callee may produce must be allowed by the caller's own discipline
+    for pname, creqs in c.provider_requires.items():
+        spec = self.reg.providers[pname]
+        mine = self.c.provider_requires.get(pname)
+        if mine is None:
+            raise ContractError(f"{c.qual} calls provider {pname} but {self.c.qual} states no discipline for it")
+        fidx = fresh("ev_idx", z3.IntSort())
+        fargs = [Val(t, fresh("ev_" + nm, t.sort())) for nm, t in zip(spec.get("arg_names", []), spec["args"])]
+        cenv = dict(env)
+        cenv.update(zip(spec.get("arg_names", []), fargs))
+        cenv["idx"] = int_val(fidx)
+        s_t = st.copy()
+        for r in creqs:
+            s_t.assume(self.spec_truth(r, State(cenv, s_t.heap, s_t.pc, s_t.next_ref, s_t.ghost, s_t.labels)))
+        menv = dict(self.entry.env)
+        menv.update(st.env)
+        menv.update(zip(spec.get("arg_names", []), fargs))
+        menv["idx"] = int_val(fidx)
+        for k, r in enumerate(mine):
+            z = self.spec_truth(r, State(menv, s_t.heap, s_t.pc, s_t.next_ref, s_t.ghost, s_t.labels), old=self.entry)
+            self.oblige(f"{site}.trace_refines.{pname}.{k}", s_t, z,
+                        f"events allowed by {c.qual} must be allowed here: {r}")
+        self.provider_calls = getattr(self, "provider_calls", 0) + 1
     # exceptional exits
     conds = []
     for exc, cond in c.raises:
@@ -1012,9 +1080,10 @@ def call_generator_view(self, c, args, kwargs, st, node):
 
     def at(i):
         it = Val(rt.elt, elems(i))
+        tgt = self.view_st if self.view_st is not None else st
         for p in c.yields:
-            z = self.spec_truth(p, State(dict(env, it=it), st.heap, st.pc, st.next_ref, st.ghost, st.labels), old=pre)
-            st.assume(z3.Implies(z3.And(0 <= i, i < n), z))
+            z = self.spec_truth(p, State(dict(env, it=it), tgt.heap, tgt.pc, tgt.next_ref, tgt.ghost, tgt.labels), old=pre)
+            tgt.assume(z3.Implies(z3.And(0 <= i, i < n), z))
         return it
     self.assume_log("A4: generators are treated as the eager sequence of their yielded values")
     return View(n, at, rt.elt)
@@ -1099,12 +1168,25 @@ def call_provider(self, p, args, kwargs, st, node):
     # record the event in the ghost trace
     tr = st.ghost.get("$trace", [])
     st.ghost["$trace"] = tr + [(p.name, idx, [a.z for a in argz], list(st.pc))]
-    for k, ob in enumerate(spec.get("requires", [])):
-        env = dict(zip(spec.get("arg_names", []), argz))
-        env["idx"] = int_val(idx)
-        env.update({n: v for n, v in self.entry.env.items() if n not in env})
-        z = self.spec_truth(ob, State(env, st.heap, st.pc, st.next_ref, st.ghost, st.labels), old=self.entry)
-        self.oblige(self.oid(f"provider:{p.name}") + f".pre{k}", st, z, f"provider call discipline: {ob}")
+    env = dict(self.entry.env)
+    env.update(st.env)
+    env.update(zip(spec.get("arg_names", []), argz))
+    env["idx"] = int_val(idx)
+    hs = State(env, st.heap, st.pc, st.next_ref, st.ghost, st.labels)
+    for hint in self.c.provider_hints.get(p.name, []):
+        try:
+            self.ghost_exec([hint], hs)
+        except Untranslatable as e:
+            if "unknown name" not in str(e):     # a hint that does not apply at this call site is skipped
+                raise
+    reqs = self.c.provider_requires.get(p.name, spec.get("requires", []))
+    site = self.oid(f"provider:{p.name}")
+    if not self.muted and not self.spec:
+        self.covers.append((f"{self.c.qual}/{site}.cover", list(st.pc)))
+    for k, ob in enumerate(reqs):
+        z = self.spec_truth(ob, hs, old=self.entry)
+        self.oblige(f"{site}.pre{k}", st, z, f"provider call discipline: {ob}")
+    self.provider_calls = getattr(self, "provider_calls", 0) + 1
     for post in spec.get("ensures", []):
         env = dict(zip(spec.get("arg_names", []), argz))
         env["idx"] = int_val(idx)
@@ -1118,8 +1200,9 @@ def call_inline(self, c, args, kwargs, st, node):
     if self.inline_depth > 6:
         raise Untranslatable("inlining too deep")
     env = self.bind_params(c, fnode, args, kwargs, st)
-    saved = (self.module, self.cur_fn, self.loop_ctx if hasattr(self, "loop_ctx") else None, self.cur_contract)
-    self.module, self.cur_fn, self.cur_contract = mod, c.qual, c
+    saved = (self.module, self.cur_fn, self.loop_ctx if hasattr(self, "loop_ctx") else None, self.cur_contract,
+             self.cur_fnode)
+    self.module, self.cur_fn, self.cur_contract, self.cur_fnode = mod, c.qual, c, fnode
     self.loop_ctx = {"n": 0}
     self.inline_depth += 1
     s = State(env, st.heap, st.pc, st.next_ref, st.ghost, st.labels)
@@ -1127,7 +1210,7 @@ def call_inline(self, c, args, kwargs, st, node):
         outs = self.ex_block(fnode.body, s)
     finally:
         self.inline_depth -= 1
-        self.module, self.cur_fn, self.loop_ctx, self.cur_contract = saved
+        self.module, self.cur_fn, self.loop_ctx, self.cur_contract, self.cur_fnode = saved
     for o in outs:
         if o.kind in ("normal", "return"):
             v = o.value if o.kind == "return" and o.value is not None else none_val()
